@@ -75,6 +75,13 @@ func oracleConfig(c *Ctx) error {
 		if err != nil {
 			return nil // an earlier step already left an unreadable file and was reported then
 		}
+		// what one "key = value" line cannot hold (a line break; a key with '=' or with blanks at its ends) lies
+		// outside the stated domain: it may be refused (then nothing changes), or it has to round-trip like any other
+		outside := strings.ContainsAny(rest[0]+val, "\n\r") || strings.Contains(key, "=") || strings.TrimSpace(key) != key
+		if outside && c.Res.Exit == 1 && !c.Res.Panic {
+			stats.Label("config:unrepresentable-argument-refused")
+			return unchangedAll(c, "config refused an argument")
+		}
 		if c.Res.Exit != 0 {
 			return fmt.Errorf("config %q failed: %s", rest, c.Res)
 		}
@@ -196,10 +203,10 @@ var profConfig = register(&Profile{
 })
 
 var cfgSections = []string{"user", "core", "alias-x", "user", "core", "[x]", "x]"}
-var cfgKeys = []string{"name", "email", "editor", "name", "email", "[wip]", "[a", "b]", "#k", ";k"}
+var cfgKeys = []string{"name", "email", "editor", "name", "email", "[wip]", "[a", "b]", "#k", ";k", "email=old", " name", "k "}
 
 func (g *G) configValue() string {
-	words := []string{"the [boss]", "b]", "#2", ";x", "->", ">", "v", "a=b", "=", "x=y=z", "[sec]", "]", "[", "#c", "\"q\"", "'s'", "é", "日本", "a", "key = val", "1", "a.b", ";", "\\", "%s", "$HOME", "~", "<x>"}
+	words := []string{"two\nlines", "the [boss]", "b]", "#2", ";x", "->", ">", "v", "a=b", "=", "x=y=z", "[sec]", "]", "[", "#c", "\"q\"", "'s'", "é", "日本", "a", "key = val", "1", "a.b", ";", "\\", "%s", "$HOME", "~", "<x>"}
 	if g.Chance(6, "longValue") {
 		// a long value: the config line crosses internal buffer sizes (4096, 8192)
 		n := g.Pick2([]int{4080, 4087, 4088, 4089, 4096, 4100, 5000, 8185, 8192, 9000, 300, 1000}, "valueLen")
